@@ -96,8 +96,8 @@ def roles(repo) -> Roles:
     for n in walk_no_nested(loop):
         if isinstance(n, ast.Assign) and is_self_call(n.value, "determine_beta"):
             tg = n.targets[0]
-            if isinstance(tg, (ast.Tuple, ast.List)) and len(tg.elts) == 2 and all(isinstance(x, ast.Name) for x in tg.elts):
-                beta, min_step = tg.elts[0].id, tg.elts[1].id
+            if isinstance(tg, (ast.Tuple, ast.List)) and len(tg.elts) >= 2 and all(isinstance(x, ast.Name) for x in tg.elts[:2]):
+                beta, min_step = tg.elts[0].id, tg.elts[1].id  # (new temperature, new minimum step[, extras])
             elif isinstance(tg, ast.Name):
                 beta = tg.id
             params = db.params[1:] if db is not None else []
@@ -139,7 +139,7 @@ def checkpoint_closure(repo):
 
 
 def fold_sample(repo, concrete=None, resumed: bool | None = False, final: bool | None = False,
-                store_hist: bool | None = True, inline_mutate: bool = False, extra_no_inline=()):
+                store_hist: bool | None = True, inline_mutate: bool = False, extra_no_inline=(), inline_db: bool = False):
     smc = repo.cls(SMC)
     sample = smc.methods.get("sample")
     if sample is None:
@@ -164,6 +164,8 @@ def fold_sample(repo, concrete=None, resumed: bool | None = False, final: bool |
                  "aspire.samplers.base:Sampler.default_file_checkpoint_callback",
                  "aspire.samplers.base:Sampler.fit_preconditioning_transform",
                  "aspire.utils:effective_sample_size"} | set(extra_no_inline)
+    if inline_db:
+        no_inline.discard(f"{SMC}.determine_beta")
     mu = concrete.resolve("mutate")
     if mu is not None and not inline_mutate:
         no_inline.add(mu.ident)
